@@ -103,6 +103,24 @@ class Monitor:
     def case_begin(self, case):
         self.case = case
         self.case_exc = None
+        # resource invariant at the quiescent point between two programs of one session: the driver
+        # resets the identifier pool before every program (boot.reseed does the same); a pool that comes
+        # back smaller than it was at the first program shrinks with every program, and word() raises
+        # once it is empty -- bounded progress fails after a bounded number of programs
+        try:
+            from src import utils
+            n = len(utils.random.WORDS)
+            self.out.ev('pool-size-checks')
+            if not hasattr(self, 'pool0'):
+                self.pool0 = n
+            elif n < self.pool0:
+                self.out.violation({'rule': 'identifier-pool-not-refilled'},
+                                   'after reset_word_pool the identifier pool holds %d words, %d at the first program '
+                                   'of the session: it is exhausted after a bounded number of programs' % (
+                                       n, self.pool0),
+                                   {'case': case.ident(), 'pool_at_first_program': self.pool0, 'pool_now': n})
+        except Exception as e:
+            self.out.skip('pool-check-failed:' + type(e).__name__)
 
     def stage_begin(self, name):
         self.steps = 0
@@ -166,6 +184,10 @@ def plan(tier, seed):
             p.append({'lang': lang, 'n': 6, 'chunk': 3, 'tag': 'tp4',
                       'extra_argv': ['--max-type-params', '4'],
                       'cfg': {'limits': {'max_type_params': 4}}})
+        # one long session in ONE process (the driver generates every program of a run in one process, or
+        # in a few pool workers): generation only, small depth, > 10 000 identifiers requested in total
+        p.append({'lang': LANGS[seed % 4], 'max_depth': 3, 'n': 160, 'chunk': 160, 'tag': 'session',
+                  'translate': False, 'inject': False, 'transformations': 0, 'count_steps': False})
     else:
         subsets = [list(c) for r in range(5) for c in itertools.combinations(SWITCHES, r)]
         for lang in LANGS:
@@ -181,10 +203,13 @@ def plan(tier, seed):
             p.append({'lang': lang, 'n': 20, 'chunk': 10, 'tag': 'tiny',
                       'cfg': {'limits': {'max_top_level': 5, 'min_top_level': 1}}})
             p.append({'lang': lang, 'n': 24, 'chunk': 12, 'tag': 'noshim', 'shim': False})
+            p.append({'lang': lang, 'max_depth': 3, 'n': 200, 'chunk': 200, 'tag': 'session',
+                      'translate': False, 'inject': False, 'transformations': 0, 'count_steps': False})
     return p
 
 
 def finish(agg, tier):
+    agg.floor('pool-size-checks', 120 if tier == 'quick' else 1200)
     agg.floor('cases', 120 if tier == 'quick' else 1200)
     agg.floor('stage:generate', 120 if tier == 'quick' else 1200)
     agg.floor('stage:translate', 240 if tier == 'quick' else 2400)
